@@ -656,6 +656,42 @@ func shRun(c *mon.Ctx, prop string, forkid bool, judge func(*mon.Ctx, *shCase)) 
 			}
 		}
 	}
+	c.Phase("unlocking-script-echoes-script-code") // the signed input already carries an unlocking script (a transaction being re-signed, or checked by the interpreter) whose pushes also occur in the script code: signature-shaped pushes, the key, the whole script code - the digest does not depend on what the unlocking script holds
+	{
+		n := uint64(0)
+		for rep := 0; rep < 40; rep++ {
+			for _, ht := range types {
+				n++
+				if !c.Case(n) {
+					continue
+				}
+				r := c.Rand(n)
+				s := gen.RandShape(r, gen.ShapeOpts{MinIns: 1, MaxIns: 3, MaxOuts: 3})
+				i := r.Intn(len(s.Ins))
+				sig := append(append([]byte{0x30, 0x44, 0x02, 0x20}, r.Bytes(32)...), append(append([]byte{0x02, 0x20}, r.Bytes(32)...), ht)...)
+				key := append([]byte{0x02}, r.Bytes(32)...)
+				blob := r.Bytes(1 + r.Intn(40))
+				var code []byte
+				switch rep % 4 {
+				case 0: // the signature pushed inside the script code (minimal push), then dropped
+					code = append(append(append(gen.MinPush(sig), 0x75), gen.MinPush(key)...), 0xac)
+				case 1: // twice, and a data push that is also in the unlocking script
+					code = append(append(append(append(append(gen.MinPush(sig), 0x75), gen.MinPush(sig)...), 0x75), gen.MinPush(blob)...), 0x75, 0x51)
+				case 2: // P2PKH-like: the key is in both
+					code = append(append([]byte{0x76, 0xa9}, gen.MinPush(key[1:21])...), 0x88, 0xac)
+				default: // an inscription envelope holding the signature as its payload
+					code = append(append(gen.P2PKH(r.Bytes(20)), 0x00, 0x63, 0x03, 'o', 'r', 'd', 0x51, 0x01, 't', 0x00), append(gen.MinPush(sig), 0x68)...)
+				}
+				s.Ins[i].PrevScript, s.Ins[i].PrevScriptNil = code, false
+				u := append(append(gen.MinPush(sig), gen.MinPush(key)...), gen.MinPush(blob)...)
+				if rep%8 >= 4 {
+					u = append(u, gen.MinPush(code)...) // the whole script code pushed too (as a P2SH spend would)
+				}
+				s.Ins[i].Unlock, s.Ins[i].UnlockNil = u, false
+				judge(c, &shCase{Shape: *s, Idx: uint32(i), HashType: ht})
+			}
+		}
+	}
 	c.Phase("random-shapes")
 	N := uint64(5000)
 	if c.Thorough {
